@@ -64,6 +64,10 @@ Fixpoint tok_of (r : rtok) : tok :=
 Definition rwentry := (list rpart * raw_xval)%type.
 Definition wentry_of (r : rwentry) : wentry := mkwentry (map wpart_of (fst r)) (xval_of (snd r)).
 
+Inductive rseg := RSNum (z : snum) | RSName (s : string).
+Definition seg_of (r : rseg) : seg :=
+  match r with RSNum z => SNum (z_of_snum z) | RSName s => SName s end.
+
 Inductive tinput :=
 | IVerify (p : proofsel)                     (* W3CCredential.VerifyProof *)
 | IStatus (s : statusf)                      (* ValidateCredentialStatus *)
@@ -79,7 +83,9 @@ Inductive tinput :=
 | ITail (es : list rwentry) (compact_ok : bool)   (* MerklizeJSONLD after EntriesFromRDF *)
 | IHash (dt : string) (v : raw_goval)        (* merklize.HashValue *)
 | IPath (l : list rpart)                     (* Path.MtEntry / Merklizer.Entry / Proof on a caller-supplied path *)
-| IEntryKV (toks : list rtok).               (* RDFEntry.UnmarshalBinary ; KeyValueMtEntries *)
+| IEntryKV (toks : list rtok)                (* RDFEntry.UnmarshalBinary ; KeyValueMtEntries *)
+| ISerAttr (attr : string)                   (* verifiable.ParseSerializationAttr *)
+| IDocPath (defined : list string) (doc : jv) (segs : list rseg).   (* merklize.NewPathFromDocument *)
 
 Definition code {A} (r : res A) : int :=
   match r with
@@ -117,6 +123,9 @@ Definition run_input (P : prim) (F : floats) (i : tinput) : int :=
       | Ok None => 4%uint63
       | r => code r
       end
+  | ISerAttr attr => code (parse_ser_attr attr)
+  | IDocPath defined doc segs =>
+      code (path_from_doc pv_repo (fun t => existsb (String.eqb t) defined) (map seg_of segs) doc false)
   | IEntryKV toks =>
       match rdfentry_key_value g P (map tok_of toks) with
       | Ok (None, _) | Ok (_, None) => 4%uint63
